@@ -48,8 +48,8 @@ RULE = ("random histories (4-25 calls quick, up to 60 thorough) with 40% failing
 PROF = H.profile(p_fail=0.40, close=0.3,
                  fails={"dup-same": 3, "dup-other": 4, "dup-link": 1, "version": 2, "malformed": 3, "header": 3,
                         "grouptag": 3, "rename-existing": 2, "rm-missing": 1, "illegal-edit": 3, "empty-line": 0.3,
-                        "mention-nonsegment": 2, "path-nonsegment": 2, "placeholder-def-nonsegment": 2, "header-dt": 2,
-                        "rename-invalid": 1})
+                        "mention-nonsegment": 2, "path-nonsegment": 2, "placeholder-def-nonsegment": 2, "header-dt": 3.5,
+                        "rename-invalid": 1, "path-short-overlaps": 1.5})
 CASE_TIMEOUT = 60
 
 
